@@ -169,9 +169,15 @@ def gen_exchanges(tape, phase, n, faults_on, same_pool):
         m = tape.weighted([(6, 'GET'), (1, 'HEAD'), (1, 'POST')], 'method')
         resp = httpgen.gen_response(tape, method='HEAD' if m == 'HEAD' else 'GET', allow_truncate=faults_on,
                                     allow_surplus=faults_on, surplus_same_read_only=True, content_types=CONTENT_TYPES if not tape.chance(1, 6, 'noct') else None)
-        if tape.chance(1, 25, 'huge_header'):
-            # header block larger than 4 KiB
-            head = resp.head[:-2] + b'X-Huge: ' + b'h' * 4200 + b'\r\n\r\n'
+        if tape.chance(1, 12, 'huge_header'):
+            # header block larger than 4 KiB; or right at the largest size the HTTP stream reader accepts (32768 bytes of
+            # status line + field lines, the blank line not counted)
+            pad = 4200
+            if resp.head.endswith(b'\r\n\r\n') and tape.chance(1, 2, 'huge_header.boundary'):
+                lines_len = len(resp.head) - 2
+                pad = 32768 - tape.draw(4, 'huge_header.k') - lines_len - len(b'X-Huge: \r\n')
+                resp.desc['header_at_limit'] = True
+            head = resp.head[:-2] + b'X-Huge: ' + b'h' * max(pad, 10) + b'\r\n\r\n'
             if resp.head.endswith(b'\r\n\r\n'):
                 delta = len(head) - len(resp.head)
                 resp.head = head
@@ -416,9 +422,12 @@ def run(tape, prop, tier):
                     except Exception as e:
                         r.violate('C07', 'cdx-unreadable', 'read_cdx-failed', repr(e)[:300])
             if ph == 1 and not params['appending']:
-                all_ex = []      # a fresh (non-appending) run: phase 1 only supplied the dedup CDX; judge phase 2 alone
+                all_ex = []      # a fresh (non-appending) run over the same prefix: judge phase 2 alone
                 for name in os.listdir(sandbox):
-                    os.unlink(os.path.join(sandbox, name))
+                    # numbered archive files of the earlier run that this run may not reach stay stale by design of
+                    # --warc-max-size; remove the earlier archives but KEEP the .cdx: a non-appending run must start it afresh
+                    if not name.endswith('.cdx'):
+                        os.unlink(os.path.join(sandbox, name))
             info = run_phase(tape, r, sandbox, ph, params, exs, url_table if ph == 1 else None)
             phases.append({'params': params, 'n': n, 'info': info})
             all_ex.extend(exs)
